@@ -35,7 +35,12 @@ def cases(draw):
             lines.append(f"{nid};{cid};0;0;{draw(st.integers(0, 25))};{draw(gen.nice_text)}")
             lines.append(f"{nid};{cid};1;0;{draw(st.sampled_from([0, 1, 24]))};{draw(gen.nice_text)}")
     change1 = draw(st.sampled_from(["1;0;1;0;24;c1", "1;255;3;0;11;sketch-c1", "5;255;0;0;17;2.0", "1;255;3;0;0;77"]))
-    change2 = draw(st.sampled_from(["1;0;1;0;25;c2", "1;255;3;0;12;9.9", "6;255;0;0;17;2.0", "2;255;3;0;0;33"]))
+    change2 = draw(st.sampled_from(["1;0;1;0;25;c2", "1;255;3;0;12;9.9", "6;255;0;0;17;2.0", "2;255;3;0;0;33", "SHRINK", "SHRINK"]))
+    if change2 == "SHRINK":
+        # the serialised state gets shorter between the failed and the next attempt
+        nid0 = int(lines[0].split(";")[0])
+        lines.append(f"{nid0};255;3;0;11;{'a very long sketch name ' * 6}")
+        change2 = f"{nid0};255;3;0;11;s"
     return {
         "version": draw(st.sampled_from(common.VERSIONS)),
         "ext": draw(st.sampled_from(["json", "pickle"])),
@@ -363,6 +368,14 @@ def _one(case):
 def draw_cases(n, seed_value):
     out = []
     common.run_given(common.Stats(), cases(), out.append, n, seed_value, shrink=False)
+    # always one state per flavour whose JSON serialisation shrinks between the failed and the next attempt
+    for flavour in ("threaded", "asyncio"):
+        if out and not any(c["ext"] == "json" and c["flavour"] == flavour and c["change2"].endswith(";11;s") for c in out):
+            base = dict(out[0], ext="json", flavour=flavour)
+            nid0 = int(base["state"][0].split(";")[0])
+            base["state"] = list(base["state"]) + [f"{nid0};255;3;0;11;{'a very long sketch name ' * 6}"]
+            base["change2"] = f"{nid0};255;3;0;11;s"
+            out.append(base)
     have = {(c["ext"], c["flavour"]) for c in out}
     for ext in ("json", "pickle"):
         for flavour in ("threaded", "asyncio"):
